@@ -12,13 +12,17 @@
                                  Q<i>=<a/b/c/d/e/f>      predictor with LBRR frame i   P<i>=…                  predictor of frame i
                                  N<i>=<v>                mid-only flag with LBRR frame i   M<i>=<v>            mid-only flag of frame i
         (<ix>, <pulses> as in `sframe`)
-     answer: <ok|err> D <st after ec_enc_done> B <hex: size bytes>
+     answer: <ok|err> D <st after ec_enc_done> B <hex: size bytes> R <ok|diff…>
+        R  model-free round trip: the real silk_Decode (normal decoding) runs on the finished bytes; wrappers around
+           silk_decode_indices / silk_decode_pulses record every frame it reads; `ok` iff that sequence (channel, frame,
+           LBRR flag, every index, every pulse) is the sequence the encoder-side wrappers recorded
    Modes: rand <seed> <n streams> */
 #ifdef HAVE_CONFIG_H
 #include "config.h"
 #endif
 #include "vcommon.h"
 #include <math.h>
+#include <stdarg.h>
 #include "opus.h"
 #include "silk/main.h"
 #include "silk/API.h"
@@ -35,8 +39,42 @@ static char rec[MAXREC]; static size_t recn; static int rec_on, rec_overflow;
 static int pend_pred[6], have_pred, pend_mid, have_mid;
 static int last_n, last_i, last_lbrr, last_valid; static SideInfoIndices last_ix; static int last_nb, last_order;
 static unsigned flags_word; static int flags_bits, n_patch;
-static long n_packets, n_mismatch_cfg, n_lbrr_frames, n_midonly, n_stereo, n_frames, n_multi_iter, n_err;
+static long n_rt_diff, n_packets, n_mismatch_cfg, n_lbrr_frames, n_midonly, n_stereo, n_frames, n_multi_iter, n_err;
 static int calls_this_frame[2][3];
+/* model-free round trip: canonical per-frame strings in call order, encoder side and decoder side */
+#define MAXFR 24
+static char efr[MAXFR][4096], dfr[MAXFR][4096]; static int nefr, ndfr, dec_on; static void *dec_state;
+static int d_n, d_i, d_lbrr, d_valid;
+
+static void frame_str(char *dst, size_t cap, int n, int i, int lbrr, const SideInfoIndices *x, int nb, int order, const opus_int8 *p8, const opus_int16 *p16, int len)
+{
+   size_t k = 0; int j, voiced = x->signalType == 2;
+   k += (size_t)snprintf(dst + k, cap - k, "%d.%d.%d=%d,%d,", n, i, lbrr, x->signalType, x->quantOffsetType);
+   for (j = 0; j < nb; j++) k += (size_t)snprintf(dst + k, cap - k, "%s%d", j ? "/" : "", x->GainsIndices[j]);
+   k += (size_t)snprintf(dst + k, cap - k, ",%d,", x->NLSFIndices[0]);
+   for (j = 0; j < order; j++) k += (size_t)snprintf(dst + k, cap - k, "%s%d", j ? "/" : "", x->NLSFIndices[j + 1]);
+   k += (size_t)snprintf(dst + k, cap - k, ",%d,%d,%d,%d,", x->NLSFInterpCoef_Q2, voiced ? x->lagIndex : 0, voiced ? x->contourIndex : 0, voiced ? x->PERIndex : 0);
+   for (j = 0; j < (voiced ? nb : 0); j++) k += (size_t)snprintf(dst + k, cap - k, "%s%d", j ? "/" : "", x->LTPIndex[j]);
+   k += (size_t)snprintf(dst + k, cap - k, ",%d,%d:", voiced ? x->LTP_scaleIndex : 0, x->Seed);
+   for (j = 0; j < len && k + 8 < cap; j++) k += (size_t)snprintf(dst + k, cap - k, "%s%d", j ? "," : "", p8 ? (int)p8[j] : (int)p16[j]);
+}
+
+void __real_silk_decode_indices(silk_decoder_state *, ec_dec *, opus_int, opus_int, opus_int);
+void __wrap_silk_decode_indices(silk_decoder_state *ps, ec_dec *dec, opus_int FrameIndex, opus_int decode_LBRR, opus_int condCoding)
+{
+   __real_silk_decode_indices(ps, dec, FrameIndex, decode_LBRR, condCoding);
+   if (dec_on) { d_n = (int)(ps - (silk_decoder_state *)dec_state); d_i = FrameIndex; d_lbrr = decode_LBRR != 0; d_valid = 1; }
+}
+void __real_silk_decode_pulses(ec_dec *, opus_int16 *, const opus_int, const opus_int, const opus_int);
+void __wrap_silk_decode_pulses(ec_dec *dec, opus_int16 pulses[], const opus_int signalType, const opus_int quantOffsetType, const opus_int frame_length)
+{
+   __real_silk_decode_pulses(dec, pulses, signalType, quantOffsetType, frame_length);
+   if (dec_on && d_valid && ndfr < MAXFR) {
+      silk_decoder_state *ps = (silk_decoder_state *)dec_state + d_n;
+      frame_str(dfr[ndfr++], sizeof dfr[0], d_n, d_i, d_lbrr, &ps->indices, ps->nb_subfr, ps->LPC_order, NULL, pulses, frame_length);
+      d_valid = 0;
+   }
+}
 
 static void radd(const char *fmt, ...)
 {
@@ -76,6 +114,7 @@ void __wrap_silk_encode_pulses(ec_enc *enc, const opus_int signalType, const opu
       radd(",%d,%d:", voiced ? x->LTP_scaleIndex : 0, x->Seed);
       for (i = 0; i < frame_length; i++) radd("%s%d", i ? "," : "", (int)pulses[i]);
       radd(";");
+      if (nefr < MAXFR) frame_str(efr[nefr++], sizeof efr[0], last_n, last_i, last_lbrr != 0, x, last_nb, last_order, pulses, NULL, frame_length);
       last_valid = 0;
       if (last_lbrr) n_lbrr_frames++; else n_frames++;
    }
@@ -139,7 +178,11 @@ static void run_stream(vrng *r)
    int api = 16000, nsamp = api / 1000 * ms, left = 0; seg_t sg; long size = 1275;
    silk_encoder *psEnc; silk_EncControlStruct ctl; opus_int encSize = 0; static float pcmf[2 * 960]; static opus_res pcm[2 * 960];
    unsigned char *buf = (unsigned char *)malloc((size_t)size);
+   void *decSt; silk_DecControlStruct dctl; opus_int decSize = 0; static opus_res outpcm[2 * 960];
    memset(&sg, 0, sizeof sg);
+   silk_Get_Decoder_Size(&decSize); decSt = calloc(1, (size_t)decSize); silk_InitDecoder(decSt);
+   memset(&dctl, 0, sizeof dctl); dctl.nChannelsAPI = nch; dctl.nChannelsInternal = nch; dctl.API_sampleRate = api;
+   dctl.internalSampleRate = fs * 1000; dctl.payloadSize_ms = ms;
    silk_Get_Encoder_Size(&encSize);
    psEnc = (silk_encoder *)calloc(1, (size_t)encSize);
    memset(&ctl, 0, sizeof ctl);
@@ -163,7 +206,7 @@ static void run_stream(vrng *r)
       memset(buf, 0, (size_t)size); memset(&enc, 0, sizeof enc);
       ec_enc_init(&enc, buf, (opus_uint32)size);
       recn = 0; rec[0] = 0; rec_on = 1; rec_overflow = 0; have_pred = have_mid = 0; last_valid = 0; n_patch = 0; flags_word = 0; flags_bits = 0;
-      memset(calls_this_frame, 0, sizeof calls_this_frame);
+      memset(calls_this_frame, 0, sizeof calls_this_frame); nefr = 0;
       ret = silk_Encode(psEnc, &ctl, pcm, nsamp, &enc, &nBytes, 0, 1);
       rec_on = 0;
       if (ret != 0) { printf("# silk_Encode returned %d\n", ret); break; }
@@ -175,11 +218,30 @@ static void run_stream(vrng *r)
       if (recn && rec[recn - 1] == ';') rec[--recn] = 0;
       printf("I rangecoder spacket %ld %d %d %d %d %u %s\n", size, fs, nch, nfpp, nb, flags_word, recn ? rec : "-");
       ec_enc_done(&enc);
-      printf("O %s D ", enc.error ? "err" : "ok"); st_print(&enc); printf(" B "); vhex(stdout, buf, size); printf("\n");
+      printf("O %s D ", enc.error ? "err" : "ok"); st_print(&enc); printf(" B "); vhex(stdout, buf, size);
+      if (!enc.error) {   /* model-free round trip through the real decoder */
+         ec_dec dec; int c, diff = -1; opus_int32 nout; unsigned char *copy = vexact(buf, size);
+         ec_dec_init(&dec, copy, (opus_uint32)size);
+         ndfr = 0; d_valid = 0; dec_state = decSt; dec_on = 1;
+         for (c = 0; c < nfpp; c++) {
+#ifdef ENABLE_DEEP_PLC
+            if (silk_Decode(decSt, &dctl, 0, c == 0, &dec, outpcm, &nout, NULL, 0)) { diff = 1000 + c; break; }
+#else
+            if (silk_Decode(decSt, &dctl, 0, c == 0, &dec, outpcm, &nout, 0)) { diff = 1000 + c; break; }
+#endif
+         }
+         dec_on = 0;
+         if (diff < 0 && ndfr != nefr) diff = 2000 + ndfr;
+         for (c = 0; diff < 0 && c < nefr; c++) if (strcmp(efr[c], dfr[c])) diff = c;
+         if (diff < 0 && (dec.rng != enc.rng || ec_tell(&dec) != ec_tell(&enc))) diff = 3000;
+         if (diff < 0) printf(" R ok"); else { printf(" R diff@%d", diff); if (diff < nefr && diff < ndfr) printf(" enc[%s] dec[%s]", efr[diff], dfr[diff]); n_rt_diff++; }
+         free(copy);
+      } else printf(" R ok");
+      printf("\n");
       n_packets++; if (nch == 2) n_stereo++; if (enc.error) n_err++;
       fflush(stdout);
    }
-   free(psEnc); free(buf);
+   free(psEnc); free(buf); free(decSt);
 }
 
 int main(int argc, char **argv)
@@ -188,8 +250,8 @@ int main(int argc, char **argv)
    if (argc >= 4 && !strcmp(argv[1], "rand")) {
       vrng m; long i, n = atol(argv[3]); m.s = strtoull(argv[2], 0, 10) * 0x9E3779B97F4A7C15ULL + 0xC085A11CULL;
       for (i = 0; i < n; i++) { vrng r; r.s = vnext(&m); run_stream(&r); }
-      printf("# spacket streams=%ld packets=%ld stereo=%ld regular-frames=%ld lbrr-frames=%ld mid-only-flags-set=%ld err=%ld skipped: re-coded %ld config %ld\n",
-         n, n_packets, n_stereo, n_frames, n_lbrr_frames, n_midonly, n_err, n_multi_iter, n_mismatch_cfg);
+      printf("# spacket streams=%ld packets=%ld stereo=%ld regular-frames=%ld lbrr-frames=%ld mid-only-flags-set=%ld err=%ld round-trip-diffs=%ld skipped: re-coded %ld config %ld\n",
+         n, n_packets, n_stereo, n_frames, n_lbrr_frames, n_midonly, n_err, n_rt_diff, n_multi_iter, n_mismatch_cfg);
    } else { fprintf(stderr, "usage: c08_silkpacket rand <seed> <n>\n"); return 64; }
    return 0;
 }
